@@ -394,7 +394,7 @@ func c10Body(id string, n int) []byte {
 // parse loop of a listening proxy; every relayed datagram must be a function
 // of exactly one sent datagram.
 func c10Lab(t *testing.T) {
-	V.Require("lab: two listeners receiving at the same moment", "lab: burst relayed and attributed", "lab: truncated or over-declared datagram inside a burst")
+	V.Require("lab: datagrams of a burst sharing method, sent-by and branch", "lab: two listeners receiving at the same moment", "lab: burst relayed and attributed", "lab: truncated or over-declared datagram inside a burst")
 	svc, err := newStdSvc(stdVariant{})
 	if err != nil {
 		V.HarnessError(t, "cannot start lab instance: %v", err)
@@ -413,6 +413,11 @@ func c10Lab(t *testing.T) {
 			descr string
 		}
 		var plan []sent
+		// (a sender that does not renew its branch: several datagrams of the burst
+		// then share method, sent-by and branch - and nothing else)
+		sameBranch := rapid.IntRange(0, 2).Draw(rt, "datagrams of one source share their Via branch") == 0
+		V.ClassIf(sameBranch, "lab: datagrams of a burst sharing method, sent-by and branch")
+		burstID := s.nextID("c10burst-")
 		budget := 60000 // bytes in flight: the listener's socket buffer must not overflow
 		for i := 0; i < k && budget > 600; i++ {
 			id := s.nextID("c10b-")
@@ -445,7 +450,11 @@ func c10Lab(t *testing.T) {
 				decl = rapid.IntRange(0, n-1).Draw(rt, "under")
 				exp, descr = body[:decl], fmt.Sprintf("under-declared %d/%d", decl, n)
 			}
-			wire := []byte(fmt.Sprintf("MESSAGE sip:svc.test SIP/2.0\r\nVia: SIP/2.0/UDP %s:5060;branch=z9hG4bK%s\r\nFrom: <sip:a@b>;tag=1\r\nTo: <sip:svc@nomatch.example>\r\nCall-ID: %s\r\nCSeq: 1 MESSAGE\r\nSubject: %s\r\nContent-Length: %d\r\n\r\n", src.ip, id, id, subj, decl))
+			branch := id
+			if sameBranch {
+				branch = burstID
+			}
+			wire := []byte(fmt.Sprintf("MESSAGE sip:svc.test SIP/2.0\r\nVia: SIP/2.0/UDP %s:5060;branch=z9hG4bK%s;rport\r\nFrom: <sip:a@b>;tag=1\r\nTo: <sip:svc@nomatch.example>\r\nCall-ID: %s\r\nCSeq: 1 MESSAGE\r\nSubject: %s\r\nContent-Length: %d\r\n\r\n", src.ip, branch, id, subj, decl))
 			hdrLen := len(wire)
 			wire = append(wire, body...)
 			if mutation == 2 {
@@ -524,6 +533,17 @@ func c10Lab(t *testing.T) {
 			if sub, _ := m.Ext("Subject"); sub != p.subj {
 				failf(rt, "datagram %s: relayed Subject %q, sent %q\nburst: %v", p.id, sub, p.subj, desc)
 			}
+			// what the proxy notes about the datagram's source is part of what it
+			// relays for it: the source of this datagram, not of a neighbour
+			if vs := m.Entries(hVia); len(vs) >= 2 && s.model.receivedSupport(entry) {
+				if v, err := rVia(vs[len(vs)-1]); err == nil {
+					rcv, _, _ := v.Param("received")
+					rp, _, _ := v.Param("rport")
+					if rcv != p.src.ip || rp != strconv.Itoa(p.src.port) {
+						failf(rt, "datagram %s came from %s:%d but is relayed with received=%q rport=%q in its sender's Via: the source of another datagram\nburst: %v", p.id, p.src.ip, p.src.port, rcv, rp, desc)
+					}
+				}
+			}
 		}
 		for id, rs := range byID {
 			failf(rt, "a datagram with Call-ID %q was relayed (%d times) that corresponds to no datagram of the burst\nburst: %v", id, len(rs), desc)
@@ -585,7 +605,7 @@ func c10Lab(t *testing.T) {
 						for i := 0; i < per; i++ {
 							id := fmt.Sprintf("c10par-%d-%d-%d-%d", round, entry, u, i)
 							n := sizes[(i*7+u*3+entry*5+round)%len(sizes)]
-							wire := []byte(fmt.Sprintf("MESSAGE sip:svc.test SIP/2.0\r\nVia: SIP/2.0/UDP %s:5060;branch=z9hG4bK%s\r\nFrom: <sip:a@b>;tag=1\r\nTo: <sip:svc@nomatch.example>\r\nCall-ID: %s\r\nCSeq: 1 MESSAGE\r\nSubject: s-%s\r\nContent-Length: %d\r\n\r\n", src.ip, id, id, id, n))
+							wire := []byte(fmt.Sprintf("MESSAGE sip:svc.test SIP/2.0\r\nVia: SIP/2.0/UDP %s:5060;branch=z9hG4bK%s;rport\r\nFrom: <sip:a@b>;tag=1\r\nTo: <sip:svc@nomatch.example>\r\nCall-ID: %s\r\nCSeq: 1 MESSAGE\r\nSubject: s-%s\r\nContent-Length: %d\r\n\r\n", src.ip, id, id, id, n))
 							wire = append(wire, c10Body(id, n)...)
 							mu.Lock()
 							sent[id] = rec{entry, n, src.ip}
@@ -663,6 +683,14 @@ func c10Lab(t *testing.T) {
 				if br, _, _ := v1.Param("branch"); v1.Host != sr.src || br != "z9hG4bK"+id {
 					bad("datagram %s relayed with the sender's Via %q: not the entry this datagram carried", id, vs[1])
 					break
+				}
+				if s.model.receivedSupport(sr.entry) {
+					rcv, _, _ := v1.Param("received")
+					rp, _, _ := v1.Param("rport")
+					if rcv != sr.src || rp != "5060" {
+						bad("datagram %s came from %s:5060 but is relayed with received=%q rport=%q in its sender's Via: the source of another datagram", id, sr.src, rcv, rp)
+						break
+					}
 				}
 			}
 			V.Class("lab: two listeners receiving at the same moment")
